@@ -9,20 +9,58 @@ def P(fn, i):
     return ("var", fn.params[i]["n"], fn.params[i]["d"])
 
 
+def local_defs(fn):
+    """Single-assignment locals -> defining term (explicit casts kept)."""
+    stored = set()
+    for nd in fn.nodes:
+        if nd["k"] in ("BinaryOperator", "CompoundAssignOperator") and nd.get("op", "").endswith("=") and nd["op"] not in ("==", "!=", "<=", ">="):
+            stored.add(fn.term(fn.kids(nd["id"])[0]))
+        if nd["k"] == "UnaryOperator" and nd.get("op") in ("++", "--"):
+            stored.add(fn.term(fn.kids(nd["id"])[0]))
+    defs = {}
+    for nd in fn.nodes:
+        if nd["k"] == "DeclStmt":
+            for d in nd.get("decls", []):
+                if "init" in d and "d" in d:
+                    v = ("var", d["n"], d["d"])
+                    if v in stored:
+                        continue
+                    t = fn.term(d["init"])
+                    if t[0] not in ("?", "lambda", "const"):
+                        defs[v] = t
+    return defs
+
+
+def xterm(fn, nid, defs):
+    t = fn.term(nid)
+    for _ in range(5):
+        n = substitute(t, defs)
+        if n == t:
+            break
+        t = n
+    return t
+
+
 def comparisons_between_params(fn):
-    """Comparison nodes whose two sides mention different parameters: (node, op, lhs term, rhs term)."""
+    """Comparison nodes whose two sides mention different parameters (locals expanded, explicit casts kept):
+    (node, op, lhs term, rhs term)."""
     out = []
     if len(fn.params) < 2:
         return out
     a, b = P(fn, 0), P(fn, 1)
-    for nd in fn.nodes:
-        if nd["k"] == "BinaryOperator" and nd.get("op") in ("<", ">", "<=", ">=", "==", "!="):
-            ks = fn.kids(nd["id"])
-            l, r = fn.term(ks[0]), fn.term(ks[1])
-        elif nd["k"] == "CXXOperatorCallExpr" and nd.get("op") in ("<", ">", "<=", ">=", "==", "!=") and len(nd.get("args", [])) == 2:
-            l, r = fn.term(nd["args"][0]), fn.term(nd["args"][1])
-        else:
-            continue
+    fn.keep_casts = True
+    try:
+        defs = local_defs(fn)
+        cands = []
+        for nd in fn.nodes:
+            if nd["k"] == "BinaryOperator" and nd.get("op") in ("<", ">", "<=", ">=", "==", "!="):
+                ks = fn.kids(nd["id"])
+                cands.append((nd, xterm(fn, ks[0], defs), xterm(fn, ks[1], defs)))
+            elif nd["k"] == "CXXOperatorCallExpr" and nd.get("op") in ("<", ">", "<=", ">=", "==", "!=") and len(nd.get("args", [])) == 2:
+                cands.append((nd, xterm(fn, nd["args"][0], defs), xterm(fn, nd["args"][1], defs)))
+    finally:
+        fn.keep_casts = False
+    for (nd, l, r) in cands:
         la, lb, ra, rb = mentions(l, a), mentions(l, b), mentions(r, a), mentions(r, b)
         if (la and rb and not lb and not ra) or (lb and ra and not la and not rb):
             out.append((nd, nd["op"], l, r))
@@ -98,7 +136,11 @@ def lexicographic_less(fn, label):
             cid, in_then = enclosing_if_cond(fn, r["id"])
             if cid is None or "v" not in v:
                 raise AnalysisBroken("%s: a return inside the loop is not of the form `if (cmp) return <bool>`" % fn.qn)
-            ct = fn.term(cid)
+            fn.keep_casts = True
+            try:
+                ct = xterm(fn, cid, local_defs(fn))
+            finally:
+                fn.keep_casts = False
             if not (ct[0] == "op" and ct[1] in ("<", ">")):
                 raise AnalysisBroken("%s: loop comparison is not < or >" % fn.qn)
             l, rr = ct[2], ct[3]
